@@ -151,6 +151,31 @@ func specs() map[string]propSpec {
 	o = full
 	o.P4 = []string{"sink", "valign", "packright", "bk"}
 	m["C09"] = propSpec{opts: o, gen: func(r *Rng) Case {
+		if r.Bool(12) {
+			// a component whose network-simplex budget binds (thoroughness 1, dense, 14-22 nodes) next to a chain that
+			// changes floor(sqrt(total number of nodes)): anything derived from the whole graph shows here
+			var es []edgeI
+			na := 14 + r.Intn(7)
+			a, _ := genGraph(r, "dense", na)
+			for _, e := range a {
+				if e[0] != e[1] {
+					es = append(es, edgeI{min(e[0], e[1]), max(e[0], e[1])})
+				}
+			}
+			nb := 2 + r.Intn(30)
+			var b []edgeI
+			for i := 1; i < nb; i++ {
+				b = append(b, edgeI{na + i - 1, na + i})
+			}
+			all := interleave(r, [][]edgeI{es, b})
+			if r.Bool(50) {
+				all = interleave(r, [][]edgeI{b, es})
+			}
+			c := Case{Kind: "capped+chain", Edges: toStrings(all, nid), P1: allP1[r.Intn(2)], P2: "ns", P4: []string{"valign", "packright", "sink"}[r.Intn(3)],
+				P5: "straight", SizeMode: "fixed", FixedW: 16, FixedH: 8, NodeSpacing: 8, LayerSpacing: 16, Thoroughness: 1,
+				P3: "noop"} // no crossing minimisation: a dense graph has hundreds of helper nodes
+			return c
+		}
 		for {
 			c := genCase(r, o)
 			if _, k := inputComponents(c); k >= 2 {
